@@ -42,3 +42,46 @@ pub fn run(ctx: &Ctx, _rep: &mut Report) {
     }
   }
 }
+
+fn pn(p: &ast_grep_core::matcher::PatternNode, depth: usize, out: &mut String) {
+  use ast_grep_core::matcher::PatternNode as P;
+  let pad = "  ".repeat(depth);
+  match p {
+    P::MetaVar { meta_var } => out.push_str(&format!("{pad}MetaVar {:?}\n", meta_var)),
+    P::Terminal { text, is_named, kind_id } => out.push_str(&format!("{pad}Terminal {:?} named={} kind={}\n", text, is_named, kind_id)),
+    P::Internal { kind_id, children } => {
+      out.push_str(&format!("{pad}Internal kind={}\n", kind_id));
+      for c in children {
+        pn(c, depth + 1, out);
+      }
+    }
+  }
+}
+
+fn tree(n: &N, depth: usize, out: &mut String) {
+  out.push_str(&format!("{}{} kind_id={} {}\n", "  ".repeat(depth), show(n), n.kind_id(), if n.is_leaf() { format!("{:?}", n.text()) } else { String::new() }));
+  for c in n.children() {
+    tree(&c, depth + 1, out);
+  }
+}
+
+/// print the pattern tree and the candidate tree of a c02/c03 replay
+pub fn patdbg(ctx: &Ctx, _rep: &mut Report) {
+  let r = ctx.replay.as_ref().expect("--replay");
+  let lang = crate::util::lang_of(r["lang"].as_str().unwrap());
+  let pat = ast_grep_core::Pattern::try_new(r["pattern"].as_str().unwrap(), lang).expect("pattern");
+  let mut s = String::new();
+  pn(&pat.node, 0, &mut s);
+  println!("PATTERN\n{s}");
+  let src = r["source"].as_str().unwrap();
+  let grep = lang.ast_grep(src);
+  let (a, b) = (r["node"][0].as_u64().unwrap() as usize, r["node"][1].as_u64().unwrap() as usize);
+  for n in grep.root().dfs() {
+    if n.range() == (a..b) && n.kind() == r["kind"].as_str().unwrap() {
+      let mut s = String::new();
+      tree(&n, 0, &mut s);
+      println!("CANDIDATE\n{s}");
+      break;
+    }
+  }
+}
